@@ -11,6 +11,9 @@ type abstraction struct {
 	Expr  string // printed form of the Go expression, e.g. "len(s.data)"
 	Param string // name of the new parameter
 	Type  string // Go type of the expression: a type name of package capnp or a universe type
+	// NonNeg: the expression is a len(...): the validation harness only generates values >= 0
+	// (recorded as type "len64" in the signature table; the Coq parameter is an ordinary int).
+	NonNeg bool
 }
 
 type target struct {
@@ -71,9 +74,9 @@ var targets = []target{
 	{File: "rawpointer.go", Recv: "rawPointer", Name: "capabilityIndex", Coq: "go_capabilityIndex"},
 	// ---- segment.go: functions of len(s.data)
 	{File: "segment.go", Recv: "Segment", Name: "inBounds", Coq: "go_inBounds",
-		Abstract: []abstraction{{Expr: "len(s.data)", Param: "len_data", Type: "int"}}},
+		Abstract: []abstraction{{Expr: "len(s.data)", Param: "len_data", Type: "int", NonNeg: true}}},
 	{File: "segment.go", Recv: "Segment", Name: "regionInBounds", Coq: "go_regionInBounds",
-		Abstract: []abstraction{{Expr: "len(s.data)", Param: "len_data", Type: "int"}}},
+		Abstract: []abstraction{{Expr: "len(s.data)", Param: "len_data", Type: "int", NonNeg: true}}},
 	// ---- struct.go: functions of (p.seg != nil, p.off, p.size)
 	{File: "struct.go", Recv: "Struct", Name: "pointerAddress", Coq: "go_pointerAddress",
 		Abstract: []abstraction{{Expr: "p.off", Param: "p_off", Type: "address"}, {Expr: "p.size", Param: "p_size", Type: "ObjectSize"}}},
